@@ -21,7 +21,7 @@ func harvestDictionary() [][]byte {
 	var out [][]byte
 	seen := map[string]bool{}
 	add := func(b []byte) {
-		if len(b) == 0 || len(b) > 32 || seen[string(b)] {
+		if len(b) == 0 || len(b) > 40 || seen[string(b)] {
 			return
 		}
 		seen[string(b)] = true
@@ -101,4 +101,25 @@ func init() {
 			}
 		}
 	}
+}
+
+// envNames returns the string literals of the code under test that look like environment
+// variable names (harvested with the dictionary).
+func envNames() []string {
+	var out []string
+	for _, tok := range harvestDictionary() {
+		s := string(tok)
+		if len(s) < 4 || len(s) > 40 {
+			continue
+		}
+		ok := s[0] >= 'A' && s[0] <= 'Z'
+		for i := 0; ok && i < len(s); i++ {
+			c := s[i]
+			ok = (c >= 'A' && c <= 'Z') || (c >= '0' && c <= '9') || c == '_'
+		}
+		if ok && strings.Contains(s, "_") {
+			out = append(out, s)
+		}
+	}
+	return out
 }
